@@ -376,6 +376,10 @@ void StateMachine::Impl::stop()
     }
 
     ++cb_level_;
+    //! 如果有子状态机，先停止子状态机
+    if (curr_state_->sub_sm != nullptr)
+        curr_state_->sub_sm->stop();
+
     if (curr_state_->exit_action)
         curr_state_->exit_action(Event());
     --cb_level_;
